@@ -196,6 +196,11 @@ func ExtractSerializedContainer(data []byte) (int, []byte, error) {
 	_, err := validateSerializedContainer(data)
 	if err == nil {
 		length := binary.LittleEndian.Uint64(data[len(TagBegin) : len(TagBegin)+SerializedContainerLengthSize])
+		// the declared length is what callers advance by: it has to cover the header
+		// and must not point past the data it was read from
+		if length <= uint64(SerializedContainerMinSize) || length > uint64(len(data)) {
+			return 0, nil, ErrNoSerializedContainerExtracted
+		}
 		return int(length), data, nil
 	}
 
